@@ -1,8 +1,12 @@
 (* Hand-written mirror of CxxParser._parse_enumerator_list (entered after the
-   '{'): NAME [= value] separated by ',', closed by '}', a trailing ',' allowed;
-   values are read by _consume_value_until(",", "}") (Parse/Balanced.v).
-   Attributes on enumerators and doc comments are outside this model.
-   Tied to the code by the differential run of harness/props/c01.py. *)
+   '{'): NAME [attribute-specifier-seq] [= value] separated by ',', closed by
+   '}', a trailing ',' allowed; values are read by
+   _consume_value_until(",", "}") (Parse/Balanced.v); the attribute sequence
+   is read by _consume_attribute_specifier_seq ([[ ... ]] and alignas( ... )
+   groups, each a balanced group, any number of them) and is dropped from the
+   result, as the code drops it.  Doc comments are outside this model.
+   Tied to the code by the differential run of harness/props/c01.py and by the
+   digest pin of Gen/PinsC01.v. *)
 From Coq Require Import NArith List Bool Lia.
 Import ListNotations.
 From CXV Require Import Gen.TokTy Gen.ParserTables Parse.Balanced Parse.BalancedThms Parse.Declarator Parse.DeclSpec.
@@ -10,9 +14,89 @@ Open Scope N_scope.
 
 Definition LBRACE := T_LIT_123.
 Definition RBRACE := T_LIT_125.
+Definition DLB := T_DBL_LBRACKET.
+Definition DRB := T_DBL_RBRACKET.
+Definition ALIGNAS := T_alignas.
 Definition enum_terms : list N := [COMMA; RBRACE].
 
 Definition enumerator := (N * option (list tk))%type.
+
+Definition of_res {A} (r : res A) : dres A :=
+  match r with
+  | Ok x => DOk x
+  | ErrEOF => DErr 2
+  | ErrUnexpected _ => DErr 1
+  | ErrInternal => DErr 3
+  end.
+
+(* _consume_attribute_specifier_seq(tok): t is the token already taken *)
+Fixpoint attr_seq (n : nat) (t : tk) (r : list tk) {struct n} : dres (list tk) :=
+  match n with
+  | O => DErr 9
+  | S n' =>
+      let next (r1 : list tk) :=
+        match r1 with
+        | h :: r2 => if is DLB h || is ALIGNAS h then attr_seq n' h r2 else DOk r1
+        | [] => DOk r1
+        end in
+      if is DLB t then
+        match consume_balanced kty [t] r with
+        | Ok (_, r1) => next r1
+        | ErrEOF => DErr 2
+        | ErrUnexpected _ => DErr 1
+        | ErrInternal => DErr 3
+        end
+      else if is ALIGNAS t then
+        match r with
+        | p :: r0 =>
+            if is LP p then
+              match consume_balanced kty [p] r0 with
+              | Ok (_, r1) => next r1
+              | ErrEOF => DErr 2
+              | ErrUnexpected _ => DErr 1
+              | ErrInternal => DErr 3
+              end
+            else DErr 1
+        | [] => DErr 2
+        end
+      else DOk (t :: r)
+  end.
+
+(* one enumerator behind its name: the enumerator, whether the '}' ended the list, the rest *)
+Definition enum_item (name : N) (r : list tk) : dres (enumerator * bool * list tk) :=
+  match r with
+  | [] => DErr 2
+  | s0 :: r0 =>
+      let after :=
+        if is DLB s0 then
+          match attr_seq (S (length r0)) s0 r0 with
+          | DOk (x :: r2) => DOk (x, r2)
+          | DOk [] => DErr 2
+          | DErr e => DErr e
+          end
+        else DOk (s0, r0) in
+      match after with
+      | DErr e => DErr e
+      | DOk (s, r1) =>
+          if is RBRACE s then DOk ((name, None), true, r1)
+          else if is COMMA s then DOk ((name, None), false, r1)
+          else if is EQ s then
+            match consume_value_until kty enum_terms r1 with
+            | Ok (v, r2) =>
+                match r2 with
+                | s2 :: r3 =>
+                    if is RBRACE s2 then DOk ((name, Some v), true, r3)
+                    else if is COMMA s2 then DOk ((name, Some v), false, r3)
+                    else DErr 1
+                | [] => DErr 2
+                end
+            | ErrEOF => DErr 2
+            | ErrUnexpected _ => DErr 1
+            | ErrInternal => DErr 3
+            end
+          else DErr 1
+      end
+  end.
 
 Fixpoint enum_list (n : nat) (acc : list enumerator) (toks : list tk) {struct n}
   : dres (list enumerator * list tk) :=
@@ -23,42 +107,42 @@ Fixpoint enum_list (n : nat) (acc : list enumerator) (toks : list tk) {struct n}
       | t :: r =>
           if is RBRACE t then DOk (rev acc, r)
           else if is T_NAME t then
-            match r with
-            | s :: r1 =>
-                if is RBRACE s then DOk (rev ((kval t, None) :: acc), r1)
-                else if is COMMA s then enum_list n' ((kval t, None) :: acc) r1
-                else if is EQ s then
-                  match consume_value_until kty enum_terms r1 with
-                  | Ok (v, r2) =>
-                      match r2 with
-                      | s2 :: r3 =>
-                          if is RBRACE s2 then DOk (rev ((kval t, Some v) :: acc), r3)
-                          else if is COMMA s2 then enum_list n' ((kval t, Some v) :: acc) r3
-                          else DErr 1
-                      | [] => DErr 2
-                      end
-                  | ErrEOF => DErr 2
-                  | ErrUnexpected _ => DErr 1
-                  | ErrInternal => DErr 3
-                  end
-                else if is T_DBL_LBRACKET s then DErr 4
-                else DErr 1
-            | [] => DErr 2
+            match enum_item (kval t) r with
+            | DErr e => DErr e
+            | DOk (e, true, r') => DOk (rev (e :: acc), r')
+            | DOk (e, false, r') => enum_list n' (e :: acc) r'
             end
           else DErr 1
       | [] => DErr 2
       end
   end.
 
-(* the printed form *)
-Definition enumerator_toks (e : enumerator) : list tk :=
-  mkTk T_NAME (fst e) :: match snd e with Some v => ktok EQ :: v | None => [] end.
+(* ---- the printed form ---- *)
+Inductive attr := ABr (soup : list tk) | AAl (soup : list tk).
+Definition attr_toks (a : attr) : list tk :=
+  match a with
+  | ABr s => ktok DLB :: s ++ [ktok DRB]
+  | AAl s => ktok ALIGNAS :: ktok LP :: s ++ [ktok RP]
+  end.
+Definition attr_ok (a : attr) : Prop := match a with ABr s | AAl s => SN tk kty s end.
 
-Definition enum_body_toks (items : list enumerator) (trailing_comma : bool) : list tk :=
-  join_comma (map enumerator_toks items) ++ (if trailing_comma then [ktok COMMA] else []) ++ [ktok RBRACE].
+(* a written enumerator: name, attributes (the first one, if any, a [[ ]] group), initialiser *)
+Definition wenum := (N * list attr * option (list tk))%type.
+Definition strip_e (w : wenum) : enumerator := (fst (fst w), snd w).
+Definition wenum_toks (w : wenum) : list tk :=
+  mkTk T_NAME (fst (fst w)) :: flat_map attr_toks (snd (fst w)) ++ match snd w with Some v => ktok EQ :: v | None => [] end.
 
-Definition value_ok (e : enumerator) : Prop :=
-  match snd e with Some v => Expr tk kty enum_terms v | None => True end.
+Fixpoint enum_body_toks (items : list wenum) (trailing_comma : bool) : list tk :=
+  match items with
+  | [] => [ktok RBRACE]
+  | [w] => wenum_toks w ++ (if trailing_comma then [ktok COMMA] else []) ++ [ktok RBRACE]
+  | w :: q => wenum_toks w ++ ktok COMMA :: enum_body_toks q trailing_comma
+  end.
+
+Definition wenum_ok (w : wenum) : Prop :=
+  Forall attr_ok (snd (fst w)) /\
+  match snd (fst w) with [] => True | ABr _ :: _ => True | AAl _ :: _ => False end /\
+  match snd w with Some v => Expr tk kty enum_terms v | None => True end.
 
 Lemma stops_comma r : stops_at tk kty enum_terms (ktok COMMA :: r).
 Proof. reflexivity. Qed.
@@ -68,82 +152,211 @@ Proof. reflexivity. Qed.
 Lemma is_name_tok a n : is a (mkTk T_NAME n) = (T_NAME =? a).
 Proof. reflexivity. Qed.
 
-Lemma enum_list_rt : forall items acc rest tc,
-  Forall value_ok items -> (items = [] -> tc = false) ->
-  enum_list (S (length items)) acc (enum_body_toks items tc ++ rest) = DOk (rev acc ++ items, rest).
+(* one attribute group is consumed whole *)
+Lemma cb_dlb soup rest : SN tk kty soup ->
+  consume_balanced kty [ktok DLB] (soup ++ ktok DRB :: rest) = Ok (ktok DLB :: soup ++ [ktok DRB], rest).
 Proof.
-  induction items as [|[n v] q IH]; intros acc rest tc Hok Htc.
-  - rewrite (Htc eq_refl). cbn. now rewrite app_nil_r.
-  - inversion Hok as [|? ? Hv Hq]; subst. unfold value_ok in Hv. cbn [snd] in Hv.
-    unfold enum_body_toks. cbn [map].
-    assert (Hhead : forall X, enum_list (S (length ((n, v) :: q))) acc (mkTk T_NAME n :: X) =
-              match X with
-              | s :: r1 =>
-                  if is RBRACE s then DOk (rev ((n, None) :: acc), r1)
-                  else if is COMMA s then enum_list (length ((n, v) :: q)) ((n, None) :: acc) r1
-                  else if is EQ s then
-                    match consume_value_until kty enum_terms r1 with
-                    | Ok (v0, r2) =>
-                        match r2 with
-                        | s2 :: r3 =>
-                            if is RBRACE s2 then DOk (rev ((n, Some v0) :: acc), r3)
-                            else if is COMMA s2 then enum_list (length ((n, v) :: q)) ((n, Some v0) :: acc) r3
-                            else DErr 1
-                        | [] => DErr 2
-                        end
-                    | ErrEOF => DErr 2
-                    | ErrUnexpected _ => DErr 1
-                    | ErrInternal => DErr 3
-                    end
-                  else if is T_DBL_LBRACKET s then DErr 4
-                  else DErr 1
-              | [] => DErr 2
-              end) by (intros X; reflexivity).
-    destruct q as [|e2 q'].
-    + (* last enumerator *)
-      cbn [map join_comma]. unfold enumerator_toks at 1. cbn [fst snd].
-      destruct v as [v|]; cbn [app]; rewrite Hhead.
-      * destruct tc; cbn [app].
-        -- change (is RBRACE (ktok EQ)) with false. change (is COMMA (ktok EQ)) with false. change (is EQ (ktok EQ)) with true. cbn iota.
-           rewrite <- app_assoc. cbn [app].
-           rewrite (value_is_whole tk kty enum_terms v (ktok COMMA :: ktok RBRACE :: rest) Hv (stops_comma _)).
-           change (is RBRACE (ktok COMMA)) with false. change (is COMMA (ktok COMMA)) with true. cbn iota.
-           cbn [length enum_list]. change (is RBRACE (ktok RBRACE)) with true. cbn iota.
-           cbn [rev app]; rewrite <- ?app_assoc; reflexivity.
-        -- change (is RBRACE (ktok EQ)) with false. change (is COMMA (ktok EQ)) with false. change (is EQ (ktok EQ)) with true. cbn iota.
-           rewrite <- app_assoc. cbn [app].
-           rewrite (value_is_whole tk kty enum_terms v (ktok RBRACE :: rest) Hv (stops_rbrace _)).
-           change (is RBRACE (ktok RBRACE)) with true. cbn iota.
-           cbn [rev app]; rewrite <- ?app_assoc; reflexivity.
-      * destruct tc; cbn [app].
-        -- change (is RBRACE (ktok COMMA)) with false. change (is COMMA (ktok COMMA)) with true. cbn iota.
-           cbn [length enum_list]. change (is RBRACE (ktok RBRACE)) with true. cbn iota.
-           cbn [rev app]; rewrite <- ?app_assoc; reflexivity.
-        -- change (is RBRACE (ktok RBRACE)) with true. cbn iota. cbn [rev app]; rewrite <- ?app_assoc; reflexivity.
-    + (* more follow *)
-      change (map enumerator_toks ((n, v) :: e2 :: q')) with (enumerator_toks (n, v) :: map enumerator_toks (e2 :: q')).
-      assert (Ej : forall x y l, join_comma (x :: y :: l) = x ++ ktok COMMA :: join_comma (y :: l)) by reflexivity.
-      change (map enumerator_toks (e2 :: q')) with (enumerator_toks e2 :: map enumerator_toks q').
-      rewrite Ej. change (enumerator_toks e2 :: map enumerator_toks q') with (map enumerator_toks (e2 :: q')).
-      unfold enumerator_toks at 1. cbn [fst snd].
-      assert (Hrec : forall a, enum_list (length ((n, v) :: e2 :: q')) a
-                (join_comma (map enumerator_toks (e2 :: q')) ++ (if tc then [ktok COMMA] else []) ++ [ktok RBRACE] ++ rest)
-                = DOk (rev a ++ e2 :: q', rest)).
-      { intros a. change (length ((n, v) :: e2 :: q')) with (S (length (e2 :: q'))).
-        pose proof (IH a rest tc Hq ltac:(discriminate)) as H. unfold enum_body_toks in H.
-        rewrite <- !app_assoc in H. exact H. }
-      destruct v as [v|]; cbn [app]; rewrite <- !app_assoc; cbn [app]; rewrite Hhead.
-      * change (is RBRACE (ktok EQ)) with false. change (is COMMA (ktok EQ)) with false. change (is EQ (ktok EQ)) with true. cbn iota.
-        rewrite <- ?app_assoc. cbn [app].
-        rewrite (value_is_whole tk kty enum_terms v _ Hv (stops_comma _)).
-        change (is RBRACE (ktok COMMA)) with false. change (is COMMA (ktok COMMA)) with true. cbn iota.
-        rewrite Hrec. cbn [rev app]; rewrite <- ?app_assoc; reflexivity.
-      * change (is RBRACE (ktok COMMA)) with false. change (is COMMA (ktok COMMA)) with true. cbn iota.
-        rewrite Hrec. cbn [rev app]; rewrite <- ?app_assoc; reflexivity.
+  intros H. apply (consume_balanced_exact tk kty (ktok DLB) (ktok DRB) DRB soup rest); [reflexivity|vm_compute; discriminate|reflexivity|exact H].
+Qed.
+Lemma cb_lp soup rest : SN tk kty soup ->
+  consume_balanced kty [ktok LP] (soup ++ ktok RP :: rest) = Ok (ktok LP :: soup ++ [ktok RP], rest).
+Proof.
+  intros H. apply (consume_balanced_exact tk kty (ktok LP) (ktok RP) RP soup rest); [reflexivity|vm_compute; discriminate|reflexivity|exact H].
 Qed.
 
-(* `{ A, B = expr, C }`: every enumerator once, in order, with exactly its value *)
+Definition not_attr_start (l : list tk) : Prop :=
+  match l with h :: _ => is DLB h = false /\ is ALIGNAS h = false | [] => True end.
+
+Lemma attr_seq_step n t r :
+  attr_seq (S n) t r =
+      let next (r1 : list tk) :=
+        match r1 with
+        | h :: r2 => if is DLB h || is ALIGNAS h then attr_seq n h r2 else DOk r1
+        | [] => DOk r1
+        end in
+      if is DLB t then
+        match consume_balanced kty [t] r with
+        | Ok (_, r1) => next r1
+        | ErrEOF => DErr 2
+        | ErrUnexpected _ => DErr 1
+        | ErrInternal => DErr 3
+        end
+      else if is ALIGNAS t then
+        match r with
+        | p :: r0 =>
+            if is LP p then
+              match consume_balanced kty [p] r0 with
+              | Ok (_, r1) => next r1
+              | ErrEOF => DErr 2
+              | ErrUnexpected _ => DErr 1
+              | ErrInternal => DErr 3
+              end
+            else DErr 1
+        | [] => DErr 2
+        end
+      else DOk (t :: r).
+Proof. reflexivity. Qed.
+
+(* the whole attribute sequence is consumed, nothing else *)
+Lemma attr_seq_rt : forall ats n rest, Forall attr_ok ats -> ats <> [] -> not_attr_start rest ->
+  (length ats <= n)%nat ->
+  match flat_map attr_toks ats ++ rest with
+  | t :: r => attr_seq n t r = DOk rest
+  | [] => False
+  end.
+Proof.
+  induction ats as [|a q IH]; intros n rest Hok Hne Hrest Hn; [contradiction|].
+  inversion Hok as [|? ? Ha Hq]; subst.
+  destruct n as [|n]; [cbn [length] in Hn; lia|]. cbn [length] in Hn.
+  assert (Hnext : forall soupdone : unit,
+            (match flat_map attr_toks q ++ rest with
+             | h :: r2 => if is DLB h || is ALIGNAS h then attr_seq n h r2 else DOk (flat_map attr_toks q ++ rest)
+             | [] => DOk (flat_map attr_toks q ++ rest)
+             end) = DOk rest).
+  { intros _. destruct q as [|a2 q'].
+    - cbn [flat_map app]. destruct rest as [|h r2]; [reflexivity|].
+      cbn [not_attr_start] in Hrest. destruct Hrest as [E1 E2]. now rewrite E1, E2.
+    - pose proof (IH n rest Hq ltac:(discriminate) Hrest ltac:(lia)) as H.
+      destruct (flat_map attr_toks (a2 :: q') ++ rest) as [|h r2] eqn:E; [contradiction|].
+      assert (Hh : is DLB h || is ALIGNAS h = true).
+      { destruct a2; cbn [flat_map attr_toks app] in E; inversion E; reflexivity. }
+      now rewrite Hh. }
+  destruct a as [soup|soup]; cbn [attr_ok] in Ha; cbn [flat_map attr_toks app].
+  - rewrite attr_seq_step. cbv zeta. change (is DLB (ktok DLB)) with true. cbn iota.
+    rewrite <- !app_assoc. cbn [app]. rewrite (cb_dlb soup _ Ha). exact (Hnext tt).
+  - rewrite attr_seq_step. cbv zeta. change (is DLB (ktok ALIGNAS)) with false. change (is ALIGNAS (ktok ALIGNAS)) with true. cbn iota.
+    change (is LP (ktok LP)) with true. cbn iota.
+    rewrite <- !app_assoc. cbn [app]. rewrite (cb_lp soup _ Ha). exact (Hnext tt).
+Qed.
+
+Lemma flat_len ats : (length ats <= length (flat_map attr_toks ats))%nat.
+Proof.
+  induction ats as [|a q IH]; [cbn; lia|]. cbn [flat_map length]. rewrite app_length.
+  destruct a; cbn [attr_toks length]; lia.
+Qed.
+
+(* one written enumerator followed by its separator *)
+Lemma enum_item_rt w sep rest : wenum_ok w -> (is COMMA sep = true \/ is RBRACE sep = true) ->
+  enum_item (fst (fst w)) (tl (wenum_toks w) ++ sep :: rest) = DOk (strip_e w, is RBRACE sep, rest).
+Proof.
+  destruct w as [[n ats] v]. unfold wenum_ok, strip_e, wenum_toks. cbn [fst snd tl].
+  intros (Hats & Hfirst & Hv) Hsep.
+  assert (Hsepk : is DLB sep = false /\ is ALIGNAS sep = false /\ (is RBRACE sep = false -> is COMMA sep = true)).
+  { unfold is in *. destruct Hsep as [H|H]; apply N.eqb_eq in H; rewrite H; repeat split; try reflexivity; intros; try discriminate. }
+  destruct Hsepk as (Hs1 & Hs2 & Hs3).
+  (* what happens from the token behind the attributes on *)
+  remember ((match v with Some v0 => ktok EQ :: v0 | None => [] end) ++ sep :: rest) as tailp eqn:Etp.
+  assert (Htail :
+    match tailp with
+    | s :: r1 =>
+        (if is RBRACE s then DOk ((n, None), true, r1)
+          else if is COMMA s then DOk ((n, None), false, r1)
+          else if is EQ s then
+            match consume_value_until kty enum_terms r1 with
+            | Ok (v0, r2) =>
+                match r2 with
+                | s2 :: r3 =>
+                    if is RBRACE s2 then DOk ((n, Some v0), true, r3)
+                    else if is COMMA s2 then DOk ((n, Some v0), false, r3)
+                    else DErr 1
+                | [] => DErr 2
+                end
+            | ErrEOF => DErr 2
+            | ErrUnexpected _ => DErr 1
+            | ErrInternal => DErr 3
+            end
+          else DErr 1)
+    | [] => DErr 2
+    end = DOk ((n, v), is RBRACE sep, rest)).
+  { subst tailp. destruct v as [v0|]; cbn [app].
+    - change (is RBRACE (ktok EQ)) with false. change (is COMMA (ktok EQ)) with false. change (is EQ (ktok EQ)) with true. cbn iota.
+      assert (Hst : stops_at tk kty enum_terms (sep :: rest)).
+      { cbn [stops_at enum_terms memN]. unfold is in Hsep. destruct Hsep as [H|H]; apply N.eqb_eq in H; rewrite H; reflexivity. }
+      rewrite (value_is_whole tk kty enum_terms v0 (sep :: rest) Hv Hst).
+      destruct (is RBRACE sep) eqn:Er; [reflexivity|]. now rewrite (Hs3 eq_refl).
+    - destruct (is RBRACE sep) eqn:Er; [reflexivity|]. now rewrite (Hs3 eq_refl). }
+  destruct ats as [|a q].
+  - cbn [flat_map app]. rewrite <- Etp. unfold enum_item.
+    destruct tailp as [|s0 r0]; [destruct v; discriminate|].
+    assert (Hd : is DLB s0 = false).
+    { destruct v; cbn [app] in Etp; inversion Etp; [reflexivity|exact Hs1]. }
+    rewrite Hd. cbv zeta. cbn iota.
+    exact Htail.
+  - destruct a as [soup|soup]; [|contradiction].
+    rewrite <- app_assoc. rewrite <- Etp.
+    assert (Hna : not_attr_start tailp).
+    { subst tailp. destruct v; cbn [app not_attr_start]; split; try reflexivity; assumption. }
+    pose proof (attr_seq_rt (ABr soup :: q) (S (length (tl (flat_map attr_toks (ABr soup :: q) ++ tailp)))) tailp Hats ltac:(discriminate) Hna) as H.
+    unfold enum_item.
+    destruct (flat_map attr_toks (ABr soup :: q) ++ tailp) as [|s0 r0] eqn:E; [cbn in E; discriminate|].
+    assert (Hd : s0 = ktok DLB) by (cbn [flat_map attr_toks app] in E; now inversion E). subst s0.
+    change (is DLB (ktok DLB)) with true. cbv zeta. cbn iota. cbn [tl] in H.
+    rewrite H.
+    + destruct tailp as [|s r1]; [destruct v; discriminate|].
+      exact Htail.
+    + (* fuel: number of attribute groups <= tokens *)
+      assert (length (flat_map attr_toks (ABr soup :: q) ++ tailp) = S (length r0)) by now rewrite E.
+      rewrite app_length in H0. pose proof (flat_len (ABr soup :: q)). lia.
+Qed.
+
+Lemma enum_list_step n acc t r :
+  enum_list (S n) acc (t :: r) =
+          if is RBRACE t then DOk (rev acc, r)
+          else if is T_NAME t then
+            match enum_item (kval t) r with
+            | DErr e => DErr e
+            | DOk (e, true, r') => DOk (rev (e :: acc), r')
+            | DOk (e, false, r') => enum_list n (e :: acc) r'
+            end
+          else DErr 1.
+Proof. reflexivity. Qed.
+
+Lemma wenum_toks_cons w : wenum_toks w = mkTk T_NAME (fst (fst w)) :: tl (wenum_toks w).
+Proof. reflexivity. Qed.
+
+Lemma enum_list_rt : forall items acc rest tc n,
+  Forall wenum_ok items -> (items = [] -> tc = false) -> (length items < n)%nat ->
+  enum_list n acc (enum_body_toks items tc ++ rest) = DOk (rev acc ++ map strip_e items, rest).
+Proof.
+  induction items as [|w q IH]; intros acc rest tc n Hok Htc Hn.
+  - destruct n as [|n]; [cbn in Hn; lia|]. cbn [enum_body_toks app]. rewrite enum_list_step.
+    change (is RBRACE (ktok RBRACE)) with true. cbn iota. cbn [map]. now rewrite app_nil_r.
+  - inversion Hok as [|? ? Hw Hq]; subst.
+    destruct n as [|n]; [cbn in Hn; lia|]. cbn [length] in Hn.
+    destruct q as [|w2 q'].
+    + (* last enumerator *)
+      cbn [enum_body_toks]. rewrite wenum_toks_cons. cbn [app]. rewrite enum_list_step.
+      change (is RBRACE (mkTk T_NAME (fst (fst w)))) with false. rewrite is_name_tok, N.eqb_refl. cbn iota.
+      change (kval (mkTk T_NAME (fst (fst w)))) with (fst (fst w)).
+      destruct tc; cbn [app]; rewrite <- app_assoc; cbn [app].
+      * rewrite (enum_item_rt w (ktok COMMA) (ktok RBRACE :: rest) Hw (or_introl eq_refl)).
+        change (is RBRACE (ktok COMMA)) with false. cbn iota.
+        destruct n as [|n]; [lia|]. rewrite enum_list_step.
+        change (is RBRACE (ktok RBRACE)) with true. cbn iota.
+        reflexivity.
+      * rewrite (enum_item_rt w (ktok RBRACE) rest Hw (or_intror eq_refl)).
+        change (is RBRACE (ktok RBRACE)) with true. cbn iota.
+        reflexivity.
+    + change (enum_body_toks (w :: w2 :: q') tc) with (wenum_toks w ++ ktok COMMA :: enum_body_toks (w2 :: q') tc).
+      rewrite wenum_toks_cons. cbn [app]. rewrite enum_list_step.
+      change (is RBRACE (mkTk T_NAME (fst (fst w)))) with false. rewrite is_name_tok, N.eqb_refl. cbn iota.
+      change (kval (mkTk T_NAME (fst (fst w)))) with (fst (fst w)).
+      rewrite <- app_assoc. cbn [app].
+      rewrite (enum_item_rt w (ktok COMMA) _ Hw (or_introl eq_refl)).
+      change (is RBRACE (ktok COMMA)) with false. cbn iota.
+      rewrite (IH (strip_e w :: acc) rest tc n Hq ltac:(discriminate) ltac:(cbn [length] in *; lia)).
+      cbn [rev map]. now rewrite <- app_assoc.
+Qed.
+
+(* `{ A, B [[deprecated]] = expr, C }`: every enumerator once, in order, with exactly its own value
+   (never a neighbour's), attributes dropped *)
 Theorem enumerators_roundtrip items tc rest :
-  Forall value_ok items -> (items = [] -> tc = false) ->
-  enum_list (S (length items)) [] (enum_body_toks items tc ++ rest) = DOk (items, rest).
-Proof. intros H1 H2. exact (enum_list_rt items [] rest tc H1 H2). Qed.
+  Forall wenum_ok items -> (items = [] -> tc = false) ->
+  enum_list (S (length items)) [] (enum_body_toks items tc ++ rest) = DOk (map strip_e items, rest).
+Proof. intros H1 H2. exact (enum_list_rt items [] rest tc (S (length items)) H1 H2 ltac:(lia)). Qed.
+
+Example ex_enum :
+  let v := [mkTk T_NAME 7] in
+  enum_list 4 [] (enum_body_toks [ (1, [], Some v); (2, [ABr [mkTk T_NAME 9]; AAl [mkTk T_NAME 8]], None); (3, [ABr []], Some v) ] true)
+  = DOk ([(1, Some v); (2, None); (3, Some v)], []).
+Proof. vm_compute. reflexivity. Qed.
